@@ -31,6 +31,12 @@ def variants():
                     if W == 2:   # small variant: two senders, same destination + a self-send; affordable at a deeper bound
                         small = [(1, other if other >= 0 else 0, fc), (1, other if other >= 0 else 0, fc), (10 + wk, other, fc), (10 + wk, -1, fc)]
                         out.append(('msgS/W%d/%s/%s/%s' % (W, fn, sn, 'wfault' if faults else 'nofault'), W, notrun, mode, faults, small))
+        # backlog: destination kept busy by gates, a batch plus newer messages in its queue when it sends from a callback
+        if W == 2:
+            for fn, fc in FL:
+                for faults in (0, 1):
+                    sends = [(1, 0, '0'), (1, 0, '0'), (1, 0, '0'), (1, 0, '0'), (10, -1, fc), (10, 1, fc)]
+                    out.append(('backlog/W%d/%s/%s' % (W, fn, 'wfault' if faults else 'nofault'), W, -1, 0, faults, sends))
         # pool virtual thread as destination
         for faults in (0, 1):
             sends = [(1, W, '0'), (1, W, '0'), (2, W, '0'), (10, W, '0'), (1, 0, '0')]
@@ -47,7 +53,7 @@ def gen_header(path, vs):
                     ', '.join('{ %d, %d, %s }' % s for s in sends)))
         f.write('};\nconst sc_scenario_t sc_scenarios[] = {\n')
         for i, v in enumerate(vs):
-            f.write('\t{ "%s", msg_scenario, %d },\n' % (v[0], i))
+            f.write('\t{ "%s", %s, %d },\n' % (v[0], 'backlog_scenario' if v[0].startswith('backlog/') else 'msg_scenario', i))
         f.write('};\nconst int sc_nscenarios = %d;\n' % len(vs))
 
 
@@ -57,7 +63,9 @@ def plan(tier, vs):
         name, W, notrun, mode, faults, sends = v
         kind = name.split('/')[0]
         if tier == 'quick':
-            if kind == 'msgS':
+            if kind == 'backlog':
+                jobs.append((name, 2, 1))
+            elif kind == 'msgS':
                 jobs.append((name, 1 if faults else 2, 1))
             elif W == 2:
                 jobs.append((name, 1, 1))
@@ -66,7 +74,9 @@ def plan(tier, vs):
             elif W == 3 and not faults and notrun < 0 and (kind == 'pvt' or name.split('/')[2] in ('0', 'ALL')):
                 jobs.append((name, 1, 0))
         else:
-            if kind == 'msgS' or W == 1:
+            if kind == 'backlog':
+                jobs.append((name, 3, 2))
+            elif kind == 'msgS' or W == 1:
                 jobs.append((name, 2 if faults else 3, 2))
             elif W == 2:
                 jobs.append((name, 2, 1))
